@@ -20,6 +20,22 @@ MUTANTS = {
         ('while-test-inverted', IN, 'if condition_result.is_success() != is_while {', 'if condition_result.is_success() == is_while {'),
         ('body-gets-cond-params', IN, 'result = body.list.execute(shell, params).await?;', 'result = body.list.execute(shell, &condition_params).await?;'),
     ],
+    'U4d': [
+        ('if-cond-not-suppressed', IN, '        // Execute condition with errexit suppressed\n        let mut condition_params = params.clone();\n        condition_params.suppress_errexit = true;\n        let condition = self.condition', '        let mut condition_params = params.clone();\n        condition_params.suppress_errexit = params.suppress_errexit;\n        let condition = self.condition'),
+        ('elif-cond-uses-caller-params', IN, 'else_condition.execute(shell, &condition_params).await?;', 'else_condition.execute(shell, params).await?;'),
+        ('then-body-suppressed', IN, 'return self.then.execute(shell, params).await;', 'return self.then.execute(shell, &condition_params).await;'),
+        ('elif-success-runs-then', IN, 'return else_clause.body.execute(shell, params).await;\n                        }\n                    }\n                    None', 'return self.then.execute(shell, params).await;\n                        }\n                    }\n                    None'),
+        ('no-branch-status-not-reset', IN, '        let result = ExecutionResult::success();\n        shell.set_last_exit_status(result.exit_code.into());\n\n        Ok(result)\n    }\n}\n\n#[async_trait::async_trait]\nimpl Execute for (WhileOrUntil', '        let result = ExecutionResult::success();\n\n        Ok(result)\n    }\n}\n\n#[async_trait::async_trait]\nimpl Execute for (WhileOrUntil'),
+        ('cond-flow-ignored', IN, '        if !condition.is_normal_flow() {\n            return Ok(condition);\n        }\n', ''),
+    ],
+    'U4e': [
+        ('last-operand-suppressed', IN, '            if !is_last {\n                params.suppress_errexit = true;', '            if is_last {\n                params.suppress_errexit = true;'),
+        ('first-operand-not-suppressed', IN, '        if has_operators {\n            first_params.suppress_errexit = true;\n        }', ''),
+        ('short-circuit-breaks', IN, '                if !result.is_success() {\n                    continue;', '                if !result.is_success() {\n                    break;'),
+        ('nonnormal-flow-not-stopping', IN, '            // Check for non-normal control flow.\n            if !result.is_normal_flow() {\n                break;\n            }\n\n            let (is_and, pipeline)', '            let (is_and, pipeline)'),
+        ('and-or-swapped', IN, 'ast::AndOr::And(p) => (true, p),\n                ast::AndOr::Or(p) => (false, p),', 'ast::AndOr::And(p) => (false, p),\n                ast::AndOr::Or(p) => (true, p),'),
+        ('is-last-off-by-one', IN, 'let is_last = index == self.additional.len() - 1;', 'let is_last = index + 1 == self.additional.len() - 1;'),
+    ],
     'U5': [
         ('sub-becomes-add', AR, 'Ok(left.wrapping_sub(right))', 'Ok(left.wrapping_add(right))'),
         ('lt-becomes-le', AR, 'Ok(bool_to_i64(left < right))', 'Ok(bool_to_i64(left <= right))'),
